@@ -72,12 +72,13 @@ func checkC14Case(ctx *core.Ctx, i int, rep *core.Report) {
 		rep.Sample(map[string]any{"case": i, "shape": c.Shape.String(), "config": c.K.String(), "sink_writes": nWrites, "api_calls": len(golden.Calls), "file_bytes": len(F)})
 	}
 	for k := 0; k < nWrites; k++ {
-		for _, mode := range []string{"no bytes + error", "short count + io.ErrShortWrite", "all bytes + error"} {
+		for _, mode := range []string{"no bytes + error", "short count + io.ErrShortWrite", "all bytes + error", "short count + nil error"} {
 			for _, sticky := range []bool{false, true} {
 				sink := drive.NewSink()
 				sink.FailAt, sink.Sticky = k, sticky
 				sink.Short = mode == "short count + io.ErrShortWrite"
 				sink.Full = mode == "all bytes + error"
+				sink.ShortNil = mode == "short count + nil error"
 				sink.Record = false
 				res := drive.RunWriter(c.W, c.K, sink, &drive.WriteOpts{StopOnError: true})
 				rep.Eval(1)
@@ -211,7 +212,7 @@ func checkC14Case(ctx *core.Ctx, i int, rep *core.Report) {
 
 func RunC14(ctx *core.Ctx, rep *core.Report) {
 	rep.Level = "fault_enumeration"
-	rep.Rule = "seeded (workload, configuration) pairs; a golden run records every Write the Writer performs on its destination; then EVERY write index k is failed in six ways (0 bytes + error, short count + io.ErrShortWrite, all bytes accepted + error) x (only write k, k and all later writes). " +
+	rep.Rule = "seeded (workload, configuration) pairs; a golden run records every Write the Writer performs on its destination; then EVERY write index k is failed in eight ways (0 bytes + error, short count + io.ErrShortWrite, all bytes accepted + error, short count + nil error) x (only write k, k and all later writes). " +
 		"Oracle: the API call executing when the fault fired returns a non-nil error (NewWriter for the magic), no call panics (the driver stops issuing workload calls at the first error and calls Close once), and the bytes accepted when that call returned are a prefix of the golden output. " +
 		"Every attachment is additionally written from sources that fail after j bytes (every j, or 200 evenly spaced for large ones, j = size included; with a private error and - at j = size and every fourth j - with io.ErrUnexpectedEOF, a wrapped one and io.ErrClosedPipe, alone or together with the last bytes), end 1..size bytes early, or deliver 1/2/7/64 bytes too many: WriteAttachment must return an error. distinct_nontrivial counts distinct (shape, configuration) pairs enumerated."
 	rep.Assumptions = []string{"sinks honour the io.Writer contract (a short write is accompanied by a non-nil error)", "the writer's sequence of sink writes is deterministic (checked: every fault index of the golden run is reached)"}
